@@ -3,7 +3,7 @@ CONSTANTS K = 7  H = 3  NB = 3  Layouts = {"p1", "p7", "p19", "singles", "mixed"
 ACTION_CONSTRAINT Emit
 INVARIANT EmitState
 INIT Init
-NEXT Next
+NEXT NextE
 CONSTRAINT Bound
 VIEW View
 INVARIANT TypeOK
